@@ -101,4 +101,38 @@ Trtri(U, limit, wb) ==
            Y == Mul(X, InvUnitUpperDirect(U11))
            I00 == Trtri(U00, limit, wb)  I11 == Trtri(U11, limit, wb)
        IN Stack(Concat(I00, Y), Concat(Zero(n - n2, n2), I11))
+
+\* ---- mzd_trtri_upper_russian(A, k): in-place inversion with NTT = 4 tables per block of 4k rows ---------------------
+\* _mzd_trtri_upper_submatrix(A, pivot_r, elim_r, k): for the columns i of the k-block, every row j in elim_r .. i-1 that has
+\* a one in column i receives row i from column i+1 on (the one in (j, i) stays: it is the entry of the inverse)
+AddFromCol(R, j, i, n) == [R EXCEPT ![j] = Xor(R[j], {x \in R[i] : x >= i + 1})]
+RECURSIVE SubRows(_, _, _, _, _)
+SubRows(R, i, j, n, lim) == IF j >= lim THEN R ELSE SubRows(IF i \in R[j] /\ i + 1 < n THEN AddFromCol(R, j, i, n) ELSE R, i, j + 1, n, lim)
+RECURSIVE SubBlock(_, _, _, _, _, _)
+SubBlock(R, i, pivr, elimr, k, n) == IF i >= pivr + k THEN R ELSE SubBlock(SubRows(R, i, elimr, n, i), i + 1, pivr, elimr, k, n)
+\* look-up of one table on a row above: v = the row's bits in the table's k columns; the row receives the combination of the
+\* snapshot rows U_l (l in v; each from its diagonal column on) with the pattern v written into the table's columns ("fix")
+TableStep(row, Usnap, c, k) ==
+  LET v == {l \in 0 .. k - 1 : (c + l) \in row}
+      comb == FoldSet(LAMBDA l, acc : Xor(acc, Usnap[l]), {}, v)
+  IN Xor(row, Xor(comb, {c + l : l \in v}))
+RECURSIVE TrtriRussianLoop(_, _, _, _, _)
+TrtriRussianLoop(R, n, r, k, ntt) ==
+  IF r + ntt * k <= n
+  THEN LET \* the tables are built one after the other; table t is a snapshot taken after its own sub-block step
+           F[t \in 0 .. ntt] == IF t = 0 THEN [R |-> R, U |-> << >>]
+                                 ELSE LET R1 == SubBlock(F[t - 1].R, r + (t - 1) * k, r + (t - 1) * k, r, k, n)
+                                          snap == [l \in 0 .. k - 1 |-> {x \in R1[r + (t - 1) * k + l] : x >= r + (t - 1) * k + l}]
+                                      IN [R |-> R1, U |-> Append(F[t - 1].U, snap)]
+           Rb == F[ntt].R
+           G[t \in 0 .. ntt] == IF t = 0 THEN Rb
+                                 ELSE TLCEval([j \in DOMAIN Rb |-> IF j < r THEN TableStep(G[t - 1][j], F[ntt].U[t], r + (t - 1) * k, k) ELSE G[t - 1][j]])
+       IN TrtriRussianLoop(G[ntt], n, r + ntt * k, k, ntt)
+  ELSE IF r >= n THEN R
+  ELSE LET k1 == IF n - r < k THEN n - r ELSE k
+           R1 == SubBlock(R, r, r, r, k1, n)
+           snap == [l \in 0 .. k1 - 1 |-> {x \in R1[r + l] : x >= r + l}]
+           R2 == TLCEval([j \in DOMAIN R1 |-> IF j < r THEN TableStep(R1[j], snap, r, k1) ELSE R1[j]])
+       IN TrtriRussianLoop(R2, n, r + k1, k1, ntt)
+TrtriRussian(U, k, ntt) == Mat(U.n, U.n, TrtriRussianLoop(U.r, U.n, 0, k, ntt))
 =============================================================================
